@@ -22,6 +22,9 @@ func init() {
 					SkipProviderButton: vpB(cm, "spb"), Bearer: vpB(cm, "bearer"), Htpasswd: vpB(cm, "htpasswd"), HtpasswdGroups: []string{"g1"},
 					SkipAuthRoutes: []string{"^/open"}, TrustedIPs: []string{"198.51.100.0/24"}, APIRoutes: []string{"^/api"},
 					EmailDomains: []string{"example.com"}, AllowedGroups: []string{"g1"}}
+				if vpB(cm, "customPrefix") {
+					cfg.ProxyPrefix = "/_gate"
+				}
 				if permissive {
 					cfg.EmailDomains = []string{"*"}
 					cfg.AllowedGroups = nil
@@ -161,6 +164,8 @@ func init() {
 					path = w.prefix() + "/start"
 				case "static":
 					path = w.prefix() + "/static/css/bulma.min.css"
+				case "old_prefix":
+					path = "/oauth2/userinfo"
 				case "robots":
 					path = "/robots.txt"
 				case "ping":
@@ -192,7 +197,7 @@ func init() {
 				}
 				obs := map[string]interface{}{"status": r.Status, "class": w.classify(r), "upstream": r.UpHits, "panic": r.Panic != "", "identityInBody": leak}
 				switch vpS(in, "endpoint") {
-				case "proxy":
+				case "proxy", "old_prefix":
 					obs["served"] = r.UpHits > 0
 					if r.UpHits > 0 {
 						obs["identityInBody"] = false // the upstream's own body
